@@ -24,7 +24,7 @@ chk("C03", "model_checking",
     "Bound: sizes as listed. Larger sizes use the order-isomorphic real embedding of non-NaN binary64 (comparisons only); small sizes also bit-precisely. The state-independence harness is auxiliary: its failure is recorded, not reported as a violation.",
     SMT + "; " + BMC, BOTH, "DESIGN.md §4 C03")
 chk("C04", "proof",
-    "constrained_spline is executed symbolically AS A WHOLE from its MIR (slicing, zips, chains, closures, f_dx, segment) for 3,4,7 (quick) / 3..9 (thorough) knots; for every f_dx branch pattern z3's nlsat proves over ALL real knots with strictly increasing x: ends = right abscissae, both Hermite interpolation conditions per cubic, C1 continuity, harmonic-mean/zero interior slopes, 3/2-1/2 end slopes, no divisor can vanish; ends verbatim bit-precisely; left-knot rounding bound 12u per monomial for the kernel.",
+    "constrained_spline is executed symbolically AS A WHOLE from its MIR (slicing, zips, chains, closures, f_dx, segment) for 3,4,7 (quick) / 3..8 (thorough) knots; for every f_dx branch pattern z3's nlsat proves over ALL real knots with strictly increasing x: ends = right abscissae, both Hermite interpolation conditions per cubic, C1 continuity, harmonic-mean/zero interior slopes, 3/2-1/2 end slopes, no divisor can vanish; ends verbatim bit-precisely; left-knot rounding bound 12u per monomial for the kernel.",
     "Exact-arithmetic meaning of the code + left-knot rounding bound; right-knot/derivative rounding bounds (conditioning (|x|/dx)^3) are not decided. Knot counts beyond the list are outside the claim.",
     SMT, E2, "DESIGN.md §4 C04")
 chk("C05", "proof",
